@@ -5,13 +5,15 @@
    Euler step equals the dense recurrence x_{k+1} = (I + h A) x_k when the orthonormalisation does not
    truncate (SVD value conjunct); the step-size controller's accepted time points increase strictly
    and never pass time_end (over Q, for every sequence of positive step sizes).
-   PARTIAL: implicit Euler / trapezoidal are exact only under the hypothesis "inner solve exact" (C07),
-   which is not discharged here; one HOD step before re-orthonormalisation is the dense recurrence
+   C09_implicit_euler / C09_trapezoidal: the operator handed to the inner solver, applied to any train, is the dense
+   I + c A applied to its tensor; so whenever the inner solve is exact (what the error estimators measure; C07 for
+   when ALS/MALS achieve it) the new state satisfies (I - h A) x1 = x0 resp. (I - h/2 A) x1 = (I + h/2 A) x0.
+   PARTIAL: the hypothesis "inner solve exact" is not discharged here (C07_full_rank_exact gives it at maximal ranks); one HOD step before re-orthonormalisation is the dense recurrence
    x_{k+1} = x_{k-1} + op_hod x_k (C09_hod_step; the series operator op_hod, the error estimators and normalisation
    (sqrt) are covered by model + correspondence + side check). *)
 From Coq Require Import ZArith List Lia Arith QArith.
 Import ListNotations.
-Require Import Ring Sums Matrix Core Chain TTOps Sweep AddProof OpsProof SweepProof Ode OdeProof HodProof.
+Require Import Ring Sums Matrix Core Chain TTOps Sweep AddProof OpsProof SweepProof Ode OdeProof HodProof ImplicitProof.
 Open Scope cr_scope.
 
 Theorem C09_eye_plus (R : cring) (c : R) (A : list (core R)) xs ys :
@@ -40,6 +42,24 @@ Theorem C09_explicit_euler (R : cring) thr maxr ansL ansR (h : R) (A x : list (c
 Proof. exact (explicit_euler_dense thr maxr ansL ansR h A x xs zs). Qed.
 Print Assumptions C09_explicit_euler.
 
+Theorem C09_implicit_euler (R : cring) (h : R) (A x0 x1 : list (core R)) xs zs :
+  A <> [] -> wf A -> length x1 = length A -> linked x1 1%nat -> rl_pos x1 ->
+  length xs = length A -> length zs = length A ->
+  elem (tmul (eye_plus (- h) A) x1) xs zs = elem x0 xs zs ->
+  msum (cols (eye_plus (- h) A)) (fun ys => (idelta xs ys - h * elem A xs ys) * elem x1 ys zs) = elem x0 xs zs.
+Proof. exact (implicit_euler_exact h A x0 x1 xs zs). Qed.
+Print Assumptions C09_implicit_euler.
+
+Theorem C09_trapezoidal (R : cring) (h2 : R) (A x0 x1 : list (core R)) xs zs :
+  A <> [] -> wf A -> length x1 = length A -> linked x1 1%nat -> rl_pos x1 ->
+  length x0 = length A -> linked x0 1%nat -> rl_pos x0 ->
+  length xs = length A -> length zs = length A ->
+  elem (tmul (eye_plus (- h2) A) x1) xs zs = elem (tmul (eye_plus h2 A) x0) xs zs ->
+  msum (cols (eye_plus (- h2) A)) (fun ys => (idelta xs ys - h2 * elem A xs ys) * elem x1 ys zs) =
+  msum (cols (eye_plus h2 A)) (fun ys => (idelta xs ys + h2 * elem A xs ys) * elem x0 ys zs).
+Proof. exact (trapezoidal_exact h2 A x0 x1 xs zs). Qed.
+Print Assumptions C09_trapezoidal.
+
 Theorem C09_hod_step (R : cring) (op xprev x : list (core R)) xs zs :
   xprev <> [] -> op <> [] -> length op = length xprev -> length x = length xprev ->
   length xs = length xprev -> length zs = length xprev ->
@@ -56,3 +76,10 @@ Print Assumptions C09_adaptive_times.
 (* non-vacuity *)
 Example ex_guarded : guarded 0 1 [(1 # 2)%Q; (1 # 4)%Q; 1%Q].
 Proof. simpl. unfold accept. repeat split; vm_compute; reflexivity. Qed.
+
+(* non-vacuity of C09_implicit_euler: a one-site instance over Z: A = [[2]], h = 1, so I - h A = [[-1]]; x1 = (3), x0 = (-3) *)
+Definition exA1 : list (core Zring) := [@mkcore Zring 1 1 1 1 (fun _ _ _ _ => 2%Z)].
+Definition exx1 : list (core Zring) := [@mkcore Zring 1 1 1 1 (fun _ _ _ _ => 3%Z)].
+Definition exx0 : list (core Zring) := [@mkcore Zring 1 1 1 1 (fun _ _ _ _ => (-3)%Z)].
+Example ex_implicit_hyp : elem (tmul (eye_plus (- (1%Z : Zring)) exA1) exx1) [0%nat] [0%nat] = elem exx0 [0%nat] [0%nat].
+Proof. vm_compute. reflexivity. Qed.
